@@ -7,7 +7,8 @@
 (* <<hi, lo, e>> where "exactly" is judged); the composition matrix is an  *)
 (* integer matrix, so its rank is decided here (Lin!IRank), not in Python. *)
 (*                                                                         *)
-(*  state events  ev in {construct, fit, append, extend, insert, pop}:     *)
+(*  state events  ev in {construct, fit, append, extend, insert, pop,      *)
+(*     remove, setitem, clear, reload, given}:                             *)
 (*     A     composition matrix of the CURRENT references over `desc`      *)
 (*     desc  the descriptors occurring in the current references (sorted)  *)
 (*     keys, off   the offset dictionary the object holds (sorted by key)  *)
@@ -37,8 +38,8 @@ VARIABLES l, st
 
 Chk(ok, name) == IF ok THEN {} ELSE {name}
 SetOf(s) == {s[i] : i \in 1..Len(s)}
-IsEdit(e) == e.ev \in {"append", "extend", "insert", "pop"}
-IsState(e) == e.ev \in {"construct", "fit", "append", "extend", "insert", "pop"}
+IsEdit(e) == e.ev \in {"append", "extend", "insert", "pop", "remove", "setitem"}
+IsState(e) == e.ev \in {"construct", "fit", "append", "extend", "insert", "pop", "remove", "setitem", "clear", "reload", "given"}
 
 \* ---- fit clauses on a state event
 \* e.fitv[i] = off . x_i as the object itself evaluates it (References.get_HoRT on the composition of
@@ -91,7 +92,13 @@ FitClauses(e) ==
 
 Unchanged(e) == e.keys = st.keys /\ e.off = st.off /\ e.Tref = st.Tref
 StateClauses(e) ==
-   IF ~WellFormed(e) THEN {"WITNESS"}
+   IF e.ev = "given"                                                 \* offsets passed in: nothing fitted,
+   THEN Chk(Len(e.off) = Len(e.keys) /\ Len(e.goff) = Len(e.gkeys), "WITNESS")   \* the object holds them as given
+        \cup Chk(e.keys = e.gkeys /\ e.off = e.goff /\ e.Tref = e.gTref, "GivenOffsetsKept")
+   ELSE IF e.ev = "clear"                                            \* clear_offset(): no offsets left
+        THEN Chk(e.keys = <<>> /\ e.off = <<>> /\ e.Tref = st.Tref, "ClearEmpties")
+   ELSE IF ~WellFormed(e) THEN {"WITNESS"}
+   ELSE IF e.ev = "reload" THEN Chk(Unchanged(e), "ReloadKeepsOffsets") \* to_dict / from_dict, JSON
    ELSE IF IsEdit(e) /\ Unchanged(e) THEN {}                        \* stale: allowed
    ELSE FitClauses(e)                                               \* construct / fit / refitted edit
 
@@ -100,7 +107,7 @@ StateClauses(e) ==
 \*      e.S, e.Cp, e.Cv, e.H2, e.G2 = <<on, off, none>> per temperature; e.R = R in kJ/mol/K
 DH(e, t) == Sub(e.Hon[t], e.Hoff[t])
 Energy(e, t) == Mul(DH(e, t), e.T[t])
-OffTerms(e) == [j \in 1..Len(st.off) |-> Mul(Mul(st.off[j], I(e.x[j])), st.Tref)]
+OffTerms(e) == [j \in 1..Len(st.off) |-> Mul(Mul(st.off[j], e.x[j]), st.Tref)]     \* e.x[j] is a Dec
 HScale(e) == {Mul(e.Hon[t], e.T[t]) : t \in 1..2} \cup {Mul(e.Hoff[t], e.T[t]) : t \in 1..2}
 EvalClauses(e) ==
    IF e.keys # st.keys \/ Len(e.x) # Len(st.off) THEN {"WITNESS"} ELSE
@@ -124,6 +131,30 @@ EvalClauses(e) ==
                             /\ Equal2(e.S[t][2], e.S[t][3]) /\ Equal2(e.Cp[t][2], e.Cp[t][3])
                             /\ Equal2(e.Cv[t][2], e.Cv[t][3]),
             "SwitchOff")
+   \* use_references omitted = True; a second call returns the same number
+   \cup Chk(\A t \in 1..2 : Equal2(e.Hdef[t], e.H2[t][1]), "DefaultIsOn")
+   \cup Chk(\A t \in 1..2 : Equal2(e.Hrep[t], e.H2[t][1]), "Repeatable")
+   \* verbose=True: slot 6 of [trans, vib, rot, elec, nucl, references, misc...] is the adjustment,
+   \* which is what References.get_HoRT(descriptors, T) returns when called directly
+   \cup Chk(\A t \in 1..2 : Equal2(e.ver[t], e.Hdir2[t]), "VerboseSlot")
+   \* the References object called directly: get_HoRT(x, T) is the shift of the species, get_GoRT
+   \* the same number, get_SoR / get_CpoR / get_CvoR / get_UoRT / get_AoRT zero, and with T omitted
+   \* the offset is not rescaled (documented: "adjusts using T_ref")
+   \cup Chk(/\ \A t \in 1..2 : CloseIn(DH(e, t), e.Hdir[t], {e.Hon[t], e.Hoff[t]}, 6)
+            /\ \A t \in 1..2 : Equal2(e.Gdir2[t], e.Hdir2[t])
+            /\ \A i \in 1..Len(e.zeros) : IsZero2(e.zeros[i])
+            /\ CloseIn(Mul(e.HnoT, st.Tref), Neg(SumSeq(OffTerms(e))), SetOf(OffTerms(e)), 6),
+            "DirectCalls")
+   \* get_G(units) carries the same energy as get_H(units)
+   \cup Chk(\A t \in 1..2 : CloseIn(Sub(e.GkJon[t], e.GkJoff[t]), Sub(e.HkJon[t], e.HkJoff[t]),
+                                    {e.GkJon[t], e.GkJoff[t], e.HkJon[t], e.HkJoff[t]}, 6),
+            "GAlsoShiftedInUnits")
+   \* an empirical species (NASA / Shomate) fitted to this species carries the shift at its anchor
+   \* temperature (k = 4: the polynomial fit itself is C03's business)
+   \cup (IF e.emp.has
+         THEN Chk(CloseIn(Sub(e.emp.H, e.emp.Hoff), Sub(e.emp.Hon, e.emp.Hoff),
+                          {e.emp.H, e.emp.Hoff, e.emp.Hon}, 4), "EmpiricalCarriesShift")
+         ELSE {})
 
 \* ---- linearity: e.a, e.b small integers; e.Hx, e.Hy, e.Hz = <<on, off>> at one temperature
 LinearClauses(e) ==
@@ -148,7 +179,13 @@ Clauses(e) ==
      [] e.ev = "nonfinite" -> {"Finite"}
      [] OTHER -> {"UnknownEvent"}
 
-Step(e) == IF IsState(e) /\ WellFormed(e)
+Step(e) == IF e.ev = "given"
+           THEN [keys |-> e.keys, off |-> e.off, Tref |-> e.Tref, fit |-> FALSE, det |-> FALSE]
+           ELSE IF e.ev = "reload" /\ WellFormed(e)
+           THEN [keys |-> e.keys, off |-> e.off, Tref |-> e.Tref, fit |-> st.fit, det |-> st.det]
+           ELSE IF e.ev = "clear"
+           THEN [keys |-> e.keys, off |-> e.off, Tref |-> e.Tref, fit |-> FALSE, det |-> FALSE]
+           ELSE IF IsState(e) /\ WellFormed(e)
            THEN [keys |-> e.keys, off |-> e.off, Tref |-> e.Tref,
                  fit |-> ~(IsEdit(e) /\ Unchanged(e)),
                  det |-> RowsIndependent(e)]
